@@ -102,22 +102,26 @@ def _valid_and_equal(model, fn, specs, kw) -> list[str]:
         onnx.shape_inference.infer_shapes(model, strict_mode=True)
     except Exception as ex:  # noqa: BLE001
         return [f"invalid model: {str(ex)[:200]}"]
-    xs = _inputs(specs)
-    ref = [np.asarray(v) for v in jax.tree_util.tree_leaves(fn(*[jnp.asarray(x) for x in xs]))]
-    feeds = {}
-    for k, (vi, x) in enumerate(zip(model.graph.input, xs)):
-        feeds[vi.name] = np.transpose(x, (0, 3, 1, 2)) if k in (kw.get("inputs_as_nchw") or []) else x
-    try:
-        _, got = U.run_model(model, feeds)
-    except Exception as ex:  # noqa: BLE001
-        return [f"not loadable/runnable: {str(ex)[:200]}"]
-    if len(got) != len(ref):
-        return [f"output count {len(got)} vs {len(ref)}"]
-    for j, (g, r) in enumerate(zip(got, ref)):
-        if j in (kw.get("outputs_as_nchw") or []):
-            r = np.transpose(r, (0, 3, 1, 2))
-        if g.shape != r.shape or not np.allclose(g, r, rtol=2e-5, atol=2e-6):
-            probs.append(f"output {j} differs from JAX")
+    # several input points: data-dependent control flow (branch index, loop bound) takes more than one path
+    for tag, f in (("base", lambda x: x), ("negated", lambda x: -x), ("shifted", lambda x: x + np.float32(3.0))):
+        xs = [f(x) for x in _inputs(specs)]
+        ref = [np.asarray(v) for v in jax.tree_util.tree_leaves(fn(*[jnp.asarray(x) for x in xs]))]
+        feeds = {}
+        for k, (vi, x) in enumerate(zip(model.graph.input, xs)):
+            feeds[vi.name] = np.transpose(x, (0, 3, 1, 2)) if k in (kw.get("inputs_as_nchw") or []) else x
+        try:
+            _, got = U.run_model(model, feeds)
+        except Exception as ex:  # noqa: BLE001
+            return [f"not loadable/runnable: {str(ex)[:200]}"]
+        if len(got) != len(ref):
+            return [f"output count {len(got)} vs {len(ref)}"]
+        for j, (g, r) in enumerate(zip(got, ref)):
+            if j in (kw.get("outputs_as_nchw") or []):
+                r = np.transpose(r, (0, 3, 1, 2))
+            if g.shape != r.shape or not np.allclose(g, r, rtol=2e-5, atol=2e-6):
+                probs.append(f"output {j} differs from JAX ({tag} inputs)")
+        if probs:
+            break
     return probs
 
 
@@ -222,6 +226,9 @@ def unsupported_job() -> list[dict[str, Any]]:
         "unregistered_primitive/cond_branch": (lambda x: lax.cond(x[0] > 0, lambda v: U.bind(v), lambda v: v, x), [(3,)]),
         "switch_3way/top": (three_way, [(3,)]),
         "switch_3way/loop_body": (in_loop(three_way), [(3,)]),
+        "switch_3way/clamped_index": (lambda x: lax.switch((x[0] * 2.0).astype(jnp.int32), [lambda v: v + 1, lambda v: v * 2, lambda v: v - 1], x), [(3,)]),
+        "switch_4way/function_body": (lambda x: userfns.switch4_fn(x), [(3,)]),
+        "switch_3way/cond_branch": (lambda x: lax.cond(x[1] > -100.0, three_way, lambda v: v * 0.0, x), [(3,)]),
         "reverse_scan/top": (rev_scan, [(3,)]),
         "reverse_scan/function_body": (lambda x: userfns.rev_scan_fn(x), [(3,)]),
         "fori_dynamic_bounds/top": (lambda x: lax.fori_loop(0, x.shape[0] if False else (x[0] > 0).astype(jnp.int32) + 1, lambda i, v: v + 1, x), [(3,)]),
